@@ -768,7 +768,7 @@ def run(ctx):
             triples = rng.sample(list(triples), 500)
         for t in triples:
             hist.append((patts, how, t))
-    ctx.run("C02.history", hist, chunk=250,
+    ctx.run("C02.history", hist, chunk=250, timeout_s=20,
             rule=f"{len(reps)} representative bases (5 classical incl. a finite class and a length-5 element, 3 mesh incl. the "
                  f"not-downward-closed one) x ALL operation sequences of length <=2 over an alphabet of {n_alpha} operations "
                  f"(count/of_length/contains member+non-member incl. a longer perm/up_to_length/first/enumeration/is_subclass/"
@@ -785,7 +785,7 @@ def run(ctx):
         for j in range(per):
             how = rng.choice(ctors_m if mesh else ctors_c)
             longs.append((b, how, _random_ops(rng, b, mesh)))
-    ctx.run("C02.history", longs, chunk=2 * per,
+    ctx.run("C02.history", longs, chunk=2 * per, timeout_s=30,
             rule=f"every enumerated basis ({len(cbases)} classical + {len(mbases)} mesh) x {per} seeded operation sequences of "
                  f"length 12 (jump ahead first / membership of a long permutation first / iterator first; interleaved partially "
                  f"consumed iterators drained at the end)")
